@@ -125,10 +125,18 @@ class LocMap:
         '''
         offset_apply = not offset is None
 
+        # when selecting within one leaf level of a hierarchy (an offset and labels are given), an open start or stop is bounded by that level, not by the full index
+        bounded = offset_apply and labels is not None and (key.step is None or key.step > 0)
+
         for field in SLICE_ATTRS:
             attr = getattr(key, field)
             if attr is None:
-                yield None
+                if bounded and field == SLICE_START_ATTR:
+                    yield offset
+                elif bounded and field == SLICE_STOP_ATTR:
+                    yield offset + len(labels) #type: ignore
+                else:
+                    yield None
 
             elif isinstance(attr, np.datetime64):
                 assert labels is not None
